@@ -190,12 +190,16 @@ def cos_sin(x):
 def rint(x):
     if isinstance(x, SR):
         return x.rint()
+    if isinstance(x, Fraction):
+        return Fraction(S._half_even(x))        # exact round-half-even on a concrete rational
     return float(np.rint(x))
 
 
 def floor(x):
     if isinstance(x, SR):
         return x.floor()
+    if isinstance(x, Fraction):
+        return Fraction(math.floor(x))
     return float(math.floor(x))
 
 
